@@ -205,6 +205,11 @@ func (e *Exec) run(ct *Contract, fi *FuncInfo, lit *ast.FuncLit) {
 		body, ftype, recvList = fi.Decl.Body, fi.Decl.Type, fi.Decl.Recv
 	}
 	fr.loopOrd = loopOrdinals(body)
+	for n, o := range ct.LoopRemap {
+		if _, own := fr.loopOrd[n]; own {
+			fr.loopOrd[n] = o
+		}
+	}
 	e.callOrd = callOrdinals(body)
 	// symbolic receiver and parameters
 	var recv *Term
